@@ -12,7 +12,7 @@ combination of the operands' memberships for all terms and all addresses.  Not d
 import itertools
 
 from ..program import AnalysisError
-from ..rules import is_call, is_mcall, mentions
+from ..rules import Arms, is_call, is_mcall, mentions
 from ..terms import C, Evaluator, G, P, is_t, mk_elem, mk_proj, show, subterms
 
 MOD = "core/generative/choice_map.py"
@@ -230,7 +230,7 @@ def run(chk, prog):
     chk.require(r.ret == ("call", ("attr", P("sample"), "filter"), (SELF,), ()), "SEL-OPS", "Selection.filter", "delegates", derived=show(r.ret), expected="sample.filter(self)", where=W(c, "filter"))
     b_ = cl["_SelectionBuilder"]
     r = ev.eval_fn(b_.methods["__getitem__"], b_.module, b_)
-    got = {}
+    got = Arms()
     for conds, ret in arms(r):
         empty = any(is_t(t, "cmp") and t[1] == "==" and t[3] == ("tuple", ()) and p for t, p in conds)
         got["empty" if empty else "path"] = ret
